@@ -110,6 +110,11 @@ func (vm *VM) applyBlock(block *nom.AccountBlock) error {
 		if computed != block.Hash {
 			return errors.Errorf("auto-received block has different hash expected %v but got %v", computed, generated)
 		}
+		// the hash does not cover the plasma fields, nor the changes-hash, plasma, key and signature fields of the
+		// descendant blocks: keep the regenerated ones, so that what is stored does not depend on who delivered the block
+		block.BasePlasma = generated.BasePlasma
+		block.TotalPlasma = generated.TotalPlasma
+		block.DescendantBlocks = generated.DescendantBlocks
 		return nil
 	default:
 		panic("unknown block type")
